@@ -872,7 +872,7 @@ def evaluate__random_number_generator(self: XPathFunction, context: ta.ContextTy
     seed = self.get_argument(context, cls=AnyAtomicType)
     if not isinstance(seed, (int, str)):
         seed = str(seed)
-    random.seed(seed)
+    generator = random.Random(seed)  # an own generator: the global one is of the application
 
     class Permute(XPathFunction):
         nargs = 1
@@ -887,7 +887,7 @@ def evaluate__random_number_generator(self: XPathFunction, context: ta.ContextTy
             except TypeError:
                 return [args[0]]
             else:
-                random.shuffle(seq)
+                generator.shuffle(seq)
                 return seq
 
     class NextRandom(XPathFunction):
@@ -896,7 +896,7 @@ def evaluate__random_number_generator(self: XPathFunction, context: ta.ContextTy
 
         def __call__(self, *args: Any, **kwargs: Any) -> XPathMap:
             items = {
-                'number': random.random(),
+                'number': generator.random(),
                 'next': NextRandom(self.parser),
                 'permute': Permute(self.parser),
             }
